@@ -378,6 +378,7 @@ class DesignVariableNode(DSGNode):
 
         bounds_fraction = .5
         if self.is_discrete:
+            value = int(value)  # Discrete values are option indices
             if value < 0:
                 value = 0
             elif value >= len(self.options):
